@@ -74,16 +74,37 @@ impl CompressedReader {
     }
 }
 
+// The decoders stop at the end of the compressed stream, which may come before the end of the body
+// that carries it (the last chunk, padding). The body is only over where its framing says so: read
+// on to that point, so that a response that was cut short there is reported like any other.
+#[cfg(feature = "flate2")]
+fn finish_body(body: &mut BodyReader) -> io::Result<usize> {
+    let mut rest = [0u8; 512];
+    loop {
+        match body.read(&mut rest) {
+            Ok(0) => return Ok(0),
+            Ok(_) => continue,
+            Err(err) if err.kind() == io::ErrorKind::Interrupted => continue,
+            Err(err) => return Err(err),
+        }
+    }
+}
+
 impl Read for CompressedReader {
     #[inline]
     fn read(&mut self, buf: &mut [u8]) -> io::Result<usize> {
-        // TODO: gzip does not read until EOF, leaving some data in the buffer.
         match self {
             CompressedReader::Plain(s) => s.read(buf),
             #[cfg(feature = "flate2")]
-            CompressedReader::Deflate(s) => s.read(buf),
+            CompressedReader::Deflate(s) => match s.read(buf) {
+                Ok(0) if !buf.is_empty() => finish_body(s.get_mut()),
+                res => res,
+            },
             #[cfg(feature = "flate2")]
-            CompressedReader::Gzip(s) => s.read(buf),
+            CompressedReader::Gzip(s) => match s.read(buf) {
+                Ok(0) if !buf.is_empty() => finish_body(s.get_mut()),
+                res => res,
+            },
         }
     }
 }
